@@ -124,6 +124,14 @@ Proof.
   destruct acc; [apply IH|split; discriminate].
 Qed.
 
+Lemma scan_in_total : forall l g i0 key acc, total (scan_in g l i0 key acc).
+Proof.
+  induction l as [|q t IH]; intros g i0 key acc; simpl; [split; discriminate|].
+  destruct (get_ref (qo q)); [|apply IH].
+  destruct (ref_eqb r key); [|apply IH].
+  destruct acc; [apply IH|split; discriminate].
+Qed.
+
 Lemma scan_all_total : forall gs key skip acc, total (scan_all gs key skip acc).
 Proof.
   induction gs as [|(g, l) t IH]; intros key skip acc; simpl; [split; discriminate|].
@@ -138,13 +146,13 @@ Proof.
   destruct (qg q) as [[s|a|v d]|]; simpl; try (split; discriminate).
   - destruct (lookup_graph ds a); [|split; discriminate].
     destruct (get_ref (qs q)); [|split; discriminate].
-    destruct (scan_total l a 0%nat r me FNone) as (H1 & H2).
-    destruct (scan a l 0 r me FNone) as [[|p]| | |] eqn:E; simpl; try (split; discriminate);
+    destruct (scan_in_total l a 0%nat r FNone) as (H1 & H2).
+    destruct (scan_in a l 0 r FNone) as [[|p]| | |] eqn:E; simpl; try (split; discriminate);
       [apply scan_all_total|exfalso; eapply H2; eauto|congruence].
   - destruct (lookup_graph ds default_graph); [|split; discriminate].
     destruct (get_ref (qs q)); [|split; discriminate].
-    destruct (scan_total l default_graph 0%nat r me FNone) as (H1 & H2).
-    destruct (scan default_graph l 0 r me FNone) as [[|p]| | |] eqn:E; simpl; try (split; discriminate);
+    destruct (scan_in_total l default_graph 0%nat r FNone) as (H1 & H2).
+    destruct (scan_in default_graph l 0 r FNone) as [[|p]| | |] eqn:E; simpl; try (split; discriminate);
       [exfalso; eapply H2; eauto|congruence].
 Qed.
 
